@@ -134,3 +134,21 @@ claim(
     "single-use path.",
     trusted=["generalisation from u8/i8 leaves to all T is parametricity of the generic impls", "the macro's syntactic choice of output kind (unimock_macros/src/unimock/output.rs) is outside"],
 )
+
+claim(
+    "C06",
+    "K-inst: the code under contract is the expansion of the real matching! proc macro for a catalogue of invocations (literals, "
+    "ranges, wildcards, bindings, @, or-patterns, tuple/struct/enum/Option patterns, slice patterns with rest, string literals against "
+    "&str/String, eq!/ne!, top-level alternatives, guards over bindings incl. `||`, 1..3 arguments, matching!()).  For each instance a "
+    "harness over the WHOLE argument domain asserts verdict(diagnostics off) == verdict(diagnostics on) == the Rust match written next to "
+    "it; the matcher runs through the real DynInputMatcher::from_matching_fn and CallPattern::match_inputs.",
+    trusted=["the catalogue samples programs; the compiler from pattern syntax to closure (proc-macro code over syn trees) has no contract within reach of Verus or Kani", "alloc::fmt::format stubbed (Debug text of mismatches unchecked)"],
+)
+claim(
+    "C19",
+    "K-inst on the catalogue's guard-free single-alternative instances: with diagnostics enabled, the set of argument positions recorded "
+    "in the MismatchReporter equals { i | argument i does not match sub-pattern i } for every argument tuple, each once, with kind "
+    "Pattern/Eq/Ne as written.  All message TEXT (Trait::method(args), Debug renderings, file:line, Display of MockError) is string "
+    "formatting and is not covered.",
+    trusted=["catalogue of programs", "message text is outside (str reasoning / core::fmt)"],
+)
